@@ -110,9 +110,9 @@ space `E(A.K)`.  Deleting `C.f` keeps `D.f` (now from `A`); deleting `A.f` too r
 deleting `A` removes `A` and `A.K` from every base list and linearisation and the members
 derived from them. -/
 def delOps : List Op := [
-  .newSpace [] "A" [], .newCells ["A"] "f" 1, .newSpace [] "B" [["A"]], .newSpace [] "C" [["A"]],
-  .setFormula ["C"] "f" 2, .newSpace [] "D" [["B"], ["C"]], .newSpace ["A"] "K" [],
-  .newCells ["A", "K"] "g" 5, .newSpace [] "E" [["A", "K"]]]
+  .newSpace [] "A" [] [], .newCells ["A"] "f" "f" 1, .newSpace [] "B" [["A"]] [], .newSpace [] "C" [["A"]] [],
+  .setFormula ["C"] "f" 2, .newSpace [] "D" [["B"], ["C"]] [], .newSpace ["A"] "K" [] [],
+  .newCells ["A", "K"] "g" "g" 5, .newSpace [] "E" [["A", "K"]] []]
 
 example : (St.run [] {} delOps).mem .cells ["E"] "g" = some { derived := true, payload := 5 } := by decide
 example : (St.run [] {} (delOps ++ [.delCells ["C"] "f"])).mem .cells ["D"] "f"
